@@ -4,6 +4,7 @@
 //	mutators: P k v -> -      D k -> v|none      Dm / DM -> k:v|none      DA -> -
 //	queries:  Sz E H G k  Mn Mx  F k  C k  Sel i  R k  Rg lo hi  RS lo hi  All  T o  TS o j  AS j   (TS/AS -> list;calls=<visitor calls>)
 //	          Any p  Allm p  Fm p  Sm p  Pm p  Eq <hist>  EqO <impl>
+//	          RgK lo hi / SmK p / PmK p (answer kept)   Chk -> kept answers re-read, joined by /   Scr -> - (kept answers overwritten)
 //	          K -> h=<Height()>;vlr=<Traverse VLR>;lvr=<Traverse LVR>;dump=<hook: pre-order nodes k:v:size:height:colour:LR>
 //	lists are k:v,k:v,... ([] when empty); p is a predicate id (see pred); hist is P2:20,D4,Dm,DM,DA
 package main
@@ -182,7 +183,22 @@ func applyHist(t table, h string) {
 	}
 }
 
-func exec(t table, impl, cmp, op string) (res string) {
+// kept is what one case retains from earlier answers: readers re-read a returned slice or
+// collection later, scribblers overwrite it.
+type kept struct {
+	read     []func() string
+	scribble []func()
+}
+
+func pairsOf(kvs []generic.KeyValue[int, int]) string {
+	var l lst
+	for _, e := range kvs {
+		l.add(e.Key, e.Val)
+	}
+	return l.String()
+}
+
+func exec(t table, ks *kept, impl, cmp, op string) (res string) {
 	defer func() {
 		if r := recover(); r != nil {
 			res = "PANIC"
@@ -242,6 +258,46 @@ func exec(t table, impl, cmp, op string) (res string) {
 		return l.String()
 	case "RS":
 		return strconv.Itoa(t.RangeSize(a(1), a(2)))
+	case "RgK": // Range whose returned slice is kept, re-read by Chk and overwritten by Scr
+		kvs := t.Range(a(1), a(2))
+		ks.read = append(ks.read, func() string { return pairsOf(kvs) })
+		ks.scribble = append(ks.scribble, func() {
+			for i := range kvs {
+				kvs[i] = generic.KeyValue[int, int]{Key: -999, Val: -999}
+			}
+			if cap(kvs) > len(kvs) { // also the spare capacity a later answer might be built in
+				ext := kvs[:cap(kvs)]
+				for i := len(kvs); i < len(ext); i++ {
+					ext[i] = generic.KeyValue[int, int]{Key: -998, Val: -998}
+				}
+			}
+		})
+		return pairsOf(kvs)
+	case "SmK": // SelectMatch whose returned collection is kept
+		c := t.SelectMatch(pred(a(1)))
+		ks.read = append(ks.read, func() string { return listOf(c) })
+		ks.scribble = append(ks.scribble, func() { c.Put(-999, -999); c.Delete(2); c.Delete(4) })
+		return listOf(c)
+	case "PmK":
+		m, u := t.PartitionMatch(pred(a(1)))
+		ks.read = append(ks.read, func() string { return listOf(m) + ";" + listOf(u) })
+		ks.scribble = append(ks.scribble, func() { m.DeleteAll(); u.Put(-999, -999) })
+		return listOf(m) + ";" + listOf(u)
+	case "Chk": // every kept answer, re-read now: an answer already given cannot change
+		if len(ks.read) == 0 {
+			return "-"
+		}
+		var parts []string
+		for _, rd := range ks.read {
+			parts = append(parts, rd())
+		}
+		return strings.Join(parts, "/")
+	case "Scr": // overwrite every kept answer; later answers of the table must not be affected
+		for _, sc := range ks.scribble {
+			sc()
+		}
+		ks.read, ks.scribble = nil, nil
+		return "-"
 	case "All":
 		return listOf(t)
 	case "T":
@@ -327,8 +383,9 @@ func tryRun(impl, cmp string, ops []string) ([]string, bool) {
 	go func() {
 		defer close(done)
 		t := mk(impl, cmp)
+		ks := &kept{}
 		for _, op := range ops {
-			r := exec(t, impl, cmp, op)
+			r := exec(t, ks, impl, cmp, op)
 			mu.Lock()
 			res = append(res, r)
 			mu.Unlock()
@@ -401,6 +458,8 @@ func fullBattery(keys []int, probes []int, sz int, sib string) []string {
 			ops = append(ops, fmt.Sprintf("Rg %d %d", lo, hi), fmt.Sprintf("RS %d %d", lo, hi))
 		}
 	}
+	// retention: keep two ranges and two collections, ask more, re-read; scribble, ask again
+	ops = append(ops, "RgK 1 5", "RgK 5 9", "SmK 2", "Chk", "RgK 2 4", "PmK 3", "Rg 1 9", "Chk", "Scr", "Rg 1 9", "All", "RgK 1 9")
 	for o := 0; o <= 8; o++ {
 		ops = append(ops, fmt.Sprintf("T %d", o))
 	}
@@ -417,7 +476,7 @@ func fullBattery(keys []int, probes []int, sz int, sib string) []string {
 		ops = append(ops, fmt.Sprintf("Any %d", p), fmt.Sprintf("Allm %d", p), fmt.Sprintf("Fm %d", p),
 			fmt.Sprintf("Sm %d", p), fmt.Sprintf("Pm %d", p))
 	}
-	ops = append(ops, "Eq "+sib, "Eq -", "EqO BST", "EqO AVL", "EqO RB")
+	ops = append(ops, "Chk", "Eq "+sib, "Eq -", "EqO BST", "EqO AVL", "EqO RB")
 	// siblings that differ in one value / miss one key / have one more key
 	if len(keys) > 0 {
 		ops = append(ops, fmt.Sprintf("Eq %s,P%d:%d", sib, keys[0], 999), fmt.Sprintf("Eq %s,D%d", sib, keys[0]),
@@ -515,6 +574,58 @@ func exhaustive(w *tr.W, cmps []string, universe, probes []int, maxLen int, full
 	}
 }
 
+// compact battery used between the mutators of one long-lived instance
+func compactBattery(universe, probes []int) []string {
+	ops := []string{"Chk", "Sz", "E", "Mn", "Mx", "All"}
+	for _, k := range probes {
+		ops = append(ops, fmt.Sprintf("G %d", k), fmt.Sprintf("F %d", k), fmt.Sprintf("C %d", k), fmt.Sprintf("R %d", k))
+	}
+	for i := -1; i <= len(universe); i++ {
+		ops = append(ops, fmt.Sprintf("Sel %d", i))
+	}
+	lo, hi := probes[0], probes[len(probes)-1]
+	mid := probes[len(probes)/2]
+	ops = append(ops, fmt.Sprintf("RS %d %d", lo, hi), fmt.Sprintf("RS %d %d", mid, mid),
+		fmt.Sprintf("RgK %d %d", lo, mid), fmt.Sprintf("RgK %d %d", mid, hi), fmt.Sprintf("Rg %d %d", lo, hi),
+		"SmK 2", "Any 1", "Fm 1", "TS 6 1", "Chk")
+	return ops
+}
+
+// interleave: every mutator history of exactly maxLen letters on ONE long-lived instance, with the
+// compact battery immediately before and after every mutator (DeleteAll included, and re-use after
+// it); answers kept from earlier batteries are re-read after every later query and mutation.
+func interleave(w *tr.W, cmps []string, universe, probes []int, maxLen int) {
+	bat := compactBattery(universe, probes)
+	for _, impl := range impls {
+		for _, cmp := range cmps {
+			var rec func(muts []string)
+			rec = func(muts []string) {
+				if len(muts) == maxLen {
+					ops := append([]string(nil), bat...)
+					for _, m := range muts {
+						ops = append(ops, m)
+						ops = append(ops, bat...)
+					}
+					ops = append(ops, "Scr", "All", "Sz", "K")
+					runCase(w, impl, cmp, ops)
+					return
+				}
+				i := len(muts)
+				for _, k := range universe {
+					rec(append(muts[:i:i], fmt.Sprintf("P %d %d", k, k*10+i%3)))
+				}
+				for _, k := range universe {
+					rec(append(muts[:i:i], fmt.Sprintf("D %d", k)))
+				}
+				rec(append(muts[:i:i], "Dm"))
+				rec(append(muts[:i:i], "DM"))
+				rec(append(muts[:i:i], "DA"))
+			}
+			rec(nil)
+		}
+	}
+}
+
 // insertion orders: 0 sorted, 1 reverse-sorted, 2 zig-zag (outside-in), 3 zig-zag (inside-out), 4 random
 func insertionOrder(r *rng.R, kind, n int) []int {
 	ks := make([]int, 0, n)
@@ -557,7 +668,7 @@ func insertionOrder(r *rng.R, kind, n int) []int {
 
 func randomQuery(r *rng.R, u int, muts []string) string {
 	k := func() int { return r.Range(-1, 2*u+1) }
-	switch r.Intn(24) {
+	switch r.Intn(26) {
 	case 0:
 		return "Sz"
 	case 1:
@@ -611,6 +722,16 @@ func randomQuery(r *rng.R, u int, muts []string) string {
 	case 22:
 		return "EqO " + impls[r.Intn(3)]
 	}
+	switch r.Intn(6) {
+	case 0:
+		return fmt.Sprintf("RgK %d %d", k(), k())
+	case 1:
+		return fmt.Sprintf("SmK %d", r.Intn(nPreds))
+	case 2:
+		return fmt.Sprintf("PmK %d", r.Intn(nPreds))
+	case 3, 4:
+		return "Chk"
+	}
 	return "K"
 }
 
@@ -645,6 +766,14 @@ func random(w *tr.W, r *rng.R, cases, maxU, steps int, cmps []string, queries bo
 			if r.Chance(1, 10) {
 				key = r.Range(-1, 2*u+1) // odd keys are never stored under asc/desc/diff: absent
 			}
+			around := queries && x < 76 && r.Chance(1, 3)
+			probe := func() {
+				if around {
+					ops = append(ops, fmt.Sprintf("G %d", key), fmt.Sprintf("F %d", key), fmt.Sprintf("C %d", key),
+						fmt.Sprintf("R %d", key), "Mn", "Mx", fmt.Sprintf("RS %d %d", key, key), fmt.Sprintf("RgK %d %d", key-2, key+2), "Chk")
+				}
+			}
+			probe()
 			switch {
 			case x < 38:
 				mut(fmt.Sprintf("P %d %d", key, val(key)))
@@ -654,7 +783,7 @@ func random(w *tr.W, r *rng.R, cases, maxU, steps int, cmps []string, queries bo
 				mut("Dm")
 			case x < 74:
 				mut("DM")
-			case x < 75 && r.Chance(1, 4):
+			case x < 76 && r.Chance(1, 2):
 				mut("DA")
 			default:
 				if queries {
@@ -663,6 +792,7 @@ func random(w *tr.W, r *rng.R, cases, maxU, steps int, cmps []string, queries bo
 					ops = append(ops, "K")
 				}
 			}
+			probe()
 			if s%16 == 15 {
 				ops = append(ops, "K")
 			}
@@ -736,7 +866,7 @@ func shapes(w *tr.W, r *rng.R, sizes []int, cmps []string) {
 }
 
 func main() {
-	mode := flag.String("mode", "exhaustive", "exhaustive|random|shapes")
+	mode := flag.String("mode", "exhaustive", "exhaustive|interleave|random|churn|shapes")
 	tier := flag.String("tier", "quick", "quick|thorough")
 	full := flag.Bool("full", true, "full query battery on every new state (exhaustive mode)")
 	replay := flag.String("replay", "", "case file to re-execute")
@@ -774,6 +904,13 @@ func main() {
 			exhaustive(w, append(ad, "diff3"), []int{2, 4, 6, 8}, probes, 4, *full)
 			exhaustive(w, mag, []int{2, 4, 6}, probes, 5, *full)
 			exhaustive(w, []string{"half"}, []int{2, 3, 6}, probes, 3, *full)
+		}
+	case "interleave":
+		probes := []int{1, 2, 4, 5, 6, 7}
+		if thorough {
+			interleave(w, []string{"asc", "diff3", "rdiff"}, []int{2, 4, 6}, probes, 5)
+		} else {
+			interleave(w, []string{"asc", "rdiff"}, []int{2, 4, 6}, probes, 4)
 		}
 	case "random":
 		r := rng.FromEnv(101)
